@@ -18,6 +18,9 @@ CHECKS = {
  "C05": ("exploration", "runtime monitoring: in-process application of the tree's literal obfuscator to generated programs + execution of the result; end-to-end differential through garble -literals",
   "Generated import-free programs with ~120 literals each (all forms, 16 positions, boundary lengths, 5 byte classes) are rewritten by the tree's literals.Obfuscate with each of the 5 obfuscators forced and with random choice over several PRNG seeds, compiled and run; every printed value is compared with the source bytes. The same programs plus -ldflags=-X targets go through garble -literals and are compared with the regular build.",
   "Literal contexts come from a fixed grammar; a hook reports which literals were actually rewritten and by which obfuscator."),
+ "C08": ("exploration", "runtime monitoring: differential execution of generated reflection programs, repeated re-obfuscation as schedule (map-order) sampling; in-process differential test of the injected replacer",
+  "Generated programs send fresh struct types of 8 shapes along 19 flow paths to reflecting sinks (TypeOf/ValueOf walks, json, fmt, FieldByName); each program is re-obfuscated R times with fresh action IDs and map orders and every case line must equal the regular build's line in all R builds. The replacer injected into binaries is compared with strings.NewReplacer on generated pair tables.",
+  "Package qualifiers are stripped (not promised); two flow classes are listed known findings (fmt verbs, package-level any variable)."),
  "C09": ("exploration", "runtime monitoring: byte-level scan of -literals binaries for planted unique literals",
   "Unique planted literals (all forms/positions/lengths of C05, a second package, an -ldflags=-X declaration, GOGARBLE subset variant, random -seed) are searched verbatim in the binary garble -literals produces; exceptions carry an `allowed` tag and are asserted visible in the regular binary instead.",
   "A must-hide literal only counts when the regular stripped binary contains it verbatim."),
